@@ -157,6 +157,24 @@ let optarg f = function A "-" -> None | x -> Some (f x)
 
 let dispatch (name : string) (args : sx list) : string =
   match name, args with
+  (* ---- C13: the store model: build an object graph with fresh locations, copy it, check separation ---- *)
+  | "heap_copy", [nin; nout; nwit] ->
+      let n x = int_of_big_int (z_of x) in
+      let ctr = ref 0 in
+      let fresh () = let c = !ctr in incr ctr; big_int_of_int c in
+      let mk_script () = { Model.sc_obj = fresh (); sc_list = fresh (); sc_content = [] } in
+      let ins = List.init (n nin) (fun _ -> let s = mk_script () in { Model.in_obj = fresh (); in_script = s; in_fields = [] }) in
+      let outs = List.init (n nout) (fun _ -> let s = mk_script () in { Model.out_obj = fresh (); out_script = s; out_amount = zero_big_int }) in
+      let wits = List.init (n nwit) (fun _ -> { Model.wit_obj = fresh (); wit_stack = fresh (); wit_items = [] }) in
+      let t = { Model.tx_obj = fresh (); tx_ins_list = fresh (); tx_outs_list = fresh (); tx_wits_list = fresh ();
+                tx_ins = ins; tx_outs = outs; tx_wits = wits; tx_fields = [] } in
+      let (t', _) = Model.copy_tx t (big_int_of_int !ctr) in
+      let l1 = Model.locs_tx t and l2 = Model.locs_tx t' in
+      let disjoint = List.for_all (fun a -> not (List.exists (fun b -> eq_big_int a b) l2)) l1 in
+      let (a, c1) = Model.new_txin_default [] (big_int_of_int 0) in
+      let (b, _) = Model.new_txin_default [] c1 in
+      let fresh_sep = List.for_all (fun x -> not (List.exists (fun y -> eq_big_int x y) (Model.locs_in b))) (Model.locs_in a) in
+      "sep=" ^ bs (disjoint && fresh_sep) ^ ",orig_unchanged=" ^ bs (Model.val_tx t' = Model.val_tx t)
   (* ---- C19: the wrapper model run over symbolic keys (the path from the root) ---- *)
   | "hd", [net; init; paths] ->
       let ckd (k : big_int list) (i : big_int) = k @ [i] in
